@@ -304,6 +304,25 @@ def job_op(job):
     known = driver.load_known()
     agg = Agg()
     t_start = time.monotonic()
+    # ---------------- deterministic probes of the listed known findings ----------------
+    for f in known.get("findings", []):
+        if f.get("property") == PROP and f.get("where", {}).get("op") == op and f.get("probe") and job["budget_A"]:
+            try:
+                key = f"probe/{f['id']}"
+                scn = S.gen_scenario(random.Random(key), ops=[op])
+                scn["params"].update(f["probe"]["params"])
+                cfg = {"workers": 2, "p_switch": 0.5, "stall": False, "dup": False, "preempt": False, "optimize_graph": True, "cold": False, "slow_steps": 0}
+                rr = exec_A(scn, cfg, rng=random.Random(key))
+                agg.d["runs"] += 1
+                agg.bump("runs_by_workload", "A")
+                if rr.harness:
+                    agg.d["harness"].append(f"{key}: {rr.harness}")
+                elif rr.violations:
+                    handle_violations(agg, known, "A", key, scn, cfg, rr, None)
+                if not agg.d["known_hits"].get(f["id"]):
+                    agg.bump("probes", f"known_finding_not_reproduced:{f['id']}")
+            except Exception as e:  # noqa: BLE001
+                agg.d["harness"].append(f"probe {f['id']}: {type(e).__name__}: {e}")
     # ---------------- A ----------------
     swA = driver.Stopwatch(job["budget_A"])
     i = job.get("start", 0)
@@ -551,7 +570,9 @@ def run_check(args):
     known = driver.load_known()
     for f in known.get("findings", []):
         if f.get("property") == PROP and d["known_hits"].get(f["id"]):
-            print(f"KNOWN-FINDING: property={PROP} {f['what']} (seen {d['known_hits'][f['id']]}x this run)")
+            print(f"KNOWN-FINDING: property={PROP} {f['id']}: {f['what']} (seen {d['known_hits'][f['id']]}x this run)")
+        elif f.get("property") == PROP and d["probes"].get(f"known_finding_not_reproduced:{f['id']}"):
+            print(f"note: listed finding {f['id']} did not reproduce on this tree (its probe passed)")
     nviol = 0
     for payload in d["violations"]:
         path = driver.write_replay(PROP, payload)
